@@ -134,6 +134,7 @@ func c12Run(m *meta.Module, strategy int, entry int, del bool) {
 	}
 	pre := vpBool()
 	src, dst := newMemStore(), newMemStore()
+	src.seq = dst.seq // one order for the events of both stores
 	c12Fill(src, shape)
 	if (strategy == 2 && !pre) || (strategy == 1 && pre) {
 		return // update needs every node to exist, insert needs none: the operation's own failures are C03's subject
